@@ -6,6 +6,12 @@ non-constant data (NP2.4 and NP2.1 layouts, lengths not multiples of 12 or of th
 row count ceil(n/12), LF sync = every 12th AP sync word (the token sequence read off the real file), LF metadata
 (2500 Hz, channel counts, opens with a shape matching its content), and two numeric projections (not decided by TLC):
 pairwise window-size comparison <= 1 LSB and interior vs whole-trace zero-phase low-pass + decimation <= 1 LSB.
+`variants`: the same clauses (and the same pairwise comparison, inside the group of the plain conversions of the same recording)
+with the recording handed in as .cbin, compress=True (LF read back from .cbin; NP2.1: the original is compressed on the way),
+nwindow as float / NumPy integer / default, windows 588 / 600 / 1152, snsGeomMap and imDatPrb_type 2013 / 1030, longer LF
+leftovers of another recording (overwrite on a fresh or on a declined converter), init_params(nsamples), and the arguments of the
+NP2.1 path that process() does not forward: offset (LF of a sub-range, incl. one that ends at the end of the file) and
+assert_shanks=False (LF of a whole NP2.4 file); that entry point is private: without it the scenarios are skipped with a drift line.
 """
 import numpy as np
 
@@ -43,7 +49,36 @@ def scenarios(ctx):
     # as a fresh conversion of the same recording (same group => compared by `post`)
     for base in [x for x in scs if x["w"] == 1200][:3 if ctx.quick else 8]:
         scs.append(dict(base, w=2400, reuse_first_w=3612))
-    return scs
+    return scs + variants(ctx, scs, lens)
+
+
+def variants(ctx, scs, lens):
+    """options of the constructor / of init_params, forms of the input, metadata variants, leftovers of earlier runs and the
+    arguments of the NP2.1 path (c03.run_variant). A variant keeps the seed and the group of the plain conversions of the same
+    recording, so `post` compares its LF with theirs; a variant that converts another range gets a group of its own."""
+    out = []
+    pick = [1825, 4037] if ctx.quick else [1825, 2999, 4037, 5003, 7229, 3606, 3611]
+    for j, ns in enumerate(pick):
+        b24 = next(x for x in scs if x["ns"] == ns and x.get("kind") is None and x["n"] == 8)
+        b21 = dict(next(x for x in scs if x.get("kind") == "NP2.1"), n=8, ns=ns, seed=b24["seed"] + 31, group=f"np21v_{ns}")
+        rot = lambda lst, i=0: lst[(j + i) % len(lst)]       # noqa: E731
+        v24 = [dict(w=2400, input="cbin", path_type="str"), dict(w=1200, compress=True),
+               dict(w=3612, w_type="float", encoding="geom", ptype=2013), dict(w=60000, w_type="default"),
+               dict(w=rot([2400, 1200]), pre="stale_force", extra="_x1"), dict(w=rot([1200, 3612]), pre="decline_force", sibling=True),
+               dict(w=rot([588, 600, 1152]), w_type=rot(["np32", "np64", "int"])),
+               dict(w=1200, nsamples=(ns * 5 // 8) | 1, group=f"len{ns}part"), dict(w=2400, nsamples=(ns * 5 // 8) | 1, w_type="float", group=f"len{ns}part"),
+               dict(w=1200, lf_whole=True, group=f"whole{ns}"), dict(w=rot([2400, 3612]), lf_whole=True, input="cbin", group=f"whole{ns}")]
+        off = 145 + 7 * j
+        v21 = [dict(w=1200), dict(w=3612, ptype=1030, encoding="geom"), dict(w=2400, input="cbin"), dict(w=rot([3612, 1200]), compress=True),
+               dict(w=2400, pre="stale_force", w_type="np64"), dict(w=1200, pre="decline_force", path_type="str"),
+               dict(w=1200, offset=off, nsamples=ns - 2 * off + 1, group=f"np21v_{ns}off"),
+               dict(w=2400, offset=off, nsamples=ns - 2 * off + 1, compress=True, group=f"np21v_{ns}off"),
+               dict(w=1200, offset=off, nsamples=ns - off, group=f"np21v_{ns}end"), dict(w=rot([3612, 2400]), offset=off, nsamples=ns - off, group=f"np21v_{ns}end")]
+        if ctx.quick:           # quick: every variant once, spread over the two lengths (pairs of a new group stay together)
+            v24 = [v24[i] for i in ([0, 2, 4, 6, 7, 8, 9, 10] if j == 0 else [1, 3, 5])]
+            v21 = [v21[i] for i in ([0, 1, 3, 5, 6, 7] if j == 0 else [0, 2, 4, 8, 9])]
+        out += [dict(b24, **v) for v in v24] + [dict(b21, **v) for v in v21]
+    return out
 
 
 def post(ctx, scs, traces):
@@ -77,9 +112,14 @@ def run(ctx):
 
 
 def replay(ctx, sc):
+    c03.quiet()
     s = dict(sc["scenario"])
-    scs = [dict(s, w=w) for w in sorted({s["w"], 1200, 3612})]
+    scs = [dict(s, w=w, w_type=s.get("w_type") if w == s["w"] else "int") for w in sorted({s["w"], 1200, 3612})]
     traces = [c03.one_run(ctx, x, i, keep_lf=True) for i, x in enumerate(scs)]
+    scs, traces = [x for x, t in zip(scs, traces) if t is not None], [t for t in traces if t is not None]
+    if not traces:
+        c03.report_unbound(ctx)
+        return
     post(ctx, scs, traces)
     for t in traces:
         t.pop("_lf", None)
